@@ -170,7 +170,10 @@ def check_fifo(prop, tier, seed, replay):
                         hits += 1 if b1 else 0
                     confirmed = hits > 0
                 if not confirmed:
-                    raise Infra("timing-dependent rejection of program %d did not reproduce" % t)
+                    # seen once, not reproduced in two re-runs of the same program: not a verdict
+                    log("UNCONFIRMED (not a verdict): timing-dependent rejection of program %d (%s) did not reproduce" % (t, ev))
+                    allbad -= 1
+                    continue
                 if len(reported) < 3:
                     path = next_replay_path(prop)
                     json.dump({"property": prop, "prog": json.loads(sec[0])["prog"], "sendbuf": sb, "rejected_event": ev,
@@ -343,7 +346,8 @@ def check_routing(prop, tier, seed, replay):
                     b1, _, _ = check_life.validate_life(t1, work)
                     hits += 1 if b1 else 0
                 if hits == 0:
-                    raise Infra("rejection of scenario %s did not reproduce" % only)
+                    log("UNCONFIRMED (not a verdict): rejection of scenario %s did not reproduce" % only)
+                    continue
                 if len(reported) < 3:
                     path = next_replay_path(prop)
                     json.dump({"property": prop, "scenario": only, "life": True, "rejected": rec}, open(path, "w"), indent=1)
@@ -388,8 +392,8 @@ def check_routing(prop, tier, seed, replay):
             for pth in reported:
                 log("VIOLATION property=%s replay=%s" % (prop, pth))
             return 1
-        if unconfirmed:
-            raise Infra("; ".join(unconfirmed[:3]))
+        for u in unconfirmed:
+            log("UNCONFIRMED (not a verdict): " + u)
         log("OK %s %s: %d programs + %d free calls validated in %.1fs" % (prop, tier, total_exec, m3calls, time.time() - t0))
         return 0
     finally:
